@@ -37,6 +37,16 @@ func c15Gen(seed uint64, tier string) any {
 			if (d.Fam == "common" || d.Fam == "coc" || d.Fam == "fate") && d.legal() && d.Times <= 12 && d.N <= 5 {
 				break
 			}
+			// pools that cannot explode are non-exploding terms too: WoD with add line 0, Double Cross with a
+			// critical value above the number of sides
+			if d.Fam == "wod" && d.AddLine == 0 && d.legal() && d.Pool <= 12 && d.Points <= 1000 {
+				d.NestM, d.NestOp = 0, ""
+				break
+			}
+			if d.Fam == "dc" && d.AddLine > d.Points && d.legal() && d.Pool <= 12 && d.Points <= 1000 {
+				d.NestM, d.NestOp = 0, ""
+				break
+			}
 		}
 		if d.Fam == "common" && d.Sides > 1<<40 {
 			d.Sides = 1 << 20
@@ -223,7 +233,7 @@ func c15One(scp *C15Scenario, m *Meter, res *RunResult) {
 		}
 	}
 	famKey := ""
-	for _, f := range []string{"common", "coc", "fate"} {
+	for _, f := range []string{"common", "coc", "fate", "wod", "dc"} {
 		if fams[f] {
 			famKey += f + "+"
 		}
@@ -420,7 +430,7 @@ func init() {
 		ID: "C15", Level: "exploration",
 		QuickRuns: 12000, ThoroughRuns: 600000,
 		Gen: c15Gen, Exec: c15Exec, Shrink: c15Shrink,
-		Rule: "in half of the cases the expression is also evaluated 2-5 times on ONE long-lived VM whose roll mode is switched in between (random / min / max in a seeded order): min and max results must equal the fresh-VM bounds and draw nothing, random results must lie in the bracket. one case = an expression sum(c_i * T_i) + c0 with non-negative constants over 1-3 non-exploding dice terms (XdY with every keep/drop/min/max combination from a boundary-biased grid, Fate, CoC bonus/penalty), evaluated in min-mode and max-mode (ledger: zero dice consume a generator; generator bytes unchanged), under 6 real seeded streams, and under forced die vectors (all lowest, all highest, alternating, CoC tens dice at '0'): every result must lie within [min-mode, max-mode]; for plain XdY terms all-lowest / all-highest faces must reproduce the min-mode / max-mode result exactly. distinct = distinct expressions; non-trivial = both modes evaluated to an int",
+		Rule: "terms are plain XdY with modifiers, CoC bonus / penalty, Fate, and the pools that cannot explode (WoD with add line 0, with k / q thresholds in any order; Double Cross with a critical value above the sides). in half of the cases the expression is also evaluated 2-5 times on ONE long-lived VM whose roll mode is switched in between (random / min / max in a seeded order): min and max results must equal the fresh-VM bounds and draw nothing, random results must lie in the bracket. one case = an expression sum(c_i * T_i) + c0 with non-negative constants over 1-3 non-exploding dice terms (XdY with every keep/drop/min/max combination from a boundary-biased grid, Fate, CoC bonus/penalty), evaluated in min-mode and max-mode (ledger: zero dice consume a generator; generator bytes unchanged), under 6 real seeded streams, and under forced die vectors (all lowest, all highest, alternating, CoC tens dice at '0'): every result must lie within [min-mode, max-mode]; for plain XdY terms all-lowest / all-highest faces must reproduce the min-mode / max-mode result exactly. distinct = distinct expressions; non-trivial = both modes evaluated to an int",
 		Real: []string{"VM dice instructions, Roll mode switch, RollCommon/RollCoC/RollFate"},
 		Stub: []string{"die faces in forcing runs"},
 		Assumptions: []string{"monotone expressions only: sums of dice terms times non-negative constants"},
